@@ -32,6 +32,11 @@ type c12case struct {
 	Indel int         `json:"indel"`
 	Reps  int         `json:"reps"` // demux: parse the sheet and demultiplex every read this many times (fresh Go maps each time)
 	Hits  bool        `json:"hits"` // demux: also report the primer matches collected by the library (verif hook)
+	// round 3: the command-level glue, in process
+	Via     string           `json:"via"`     // "worker": through the real ExtractMultiBarcodeSliceWorker (what obimultiplex runs) with the options below
+	Emis    int              `json:"emis"`    // -e / --allowed-mismatches (<= 0: not given)
+	Windels bool             `json:"windels"` // --with-indels
+	Annots  []map[string]any `json:"annots"`  // annotations the reads already carry (e.g. those of a previous demultiplexing)
 }
 
 type c12hit struct {
@@ -106,6 +111,10 @@ type c12res struct {
 	Err    string `json:"err"`
 	HasErr bool   `json:"has_err"`
 	Rank   string `json:"rank"`
+	Fmt    string `json:"fmt"` // obimultiplex_forward_matching
+	Rmt    string `json:"rmt"`
+	// every annotation that is not one of the above (annotations declared for the sample in the sheet, annotations the read carried)
+	Extra map[string]string `json:"extra"`
 }
 
 type c12obs struct {
@@ -173,17 +182,46 @@ func c12lib(lib *obingslibrary.NGSLibrary) []c12marker {
 	return res
 }
 
+var c12known = map[string]bool{"obimultiplex_direction": true, "obimultiplex_forward_primer": true, "obimultiplex_reverse_primer": true,
+	"obimultiplex_forward_match": true, "obimultiplex_reverse_match": true, "obimultiplex_forward_error": true, "obimultiplex_reverse_error": true,
+	"obimultiplex_forward_tag": true, "obimultiplex_reverse_tag": true, "obimultiplex_forward_proposed_tag": true, "obimultiplex_reverse_proposed_tag": true,
+	"obimultiplex_forward_tag_dist": true, "obimultiplex_reverse_tag_dist": true, "sample": true, "experiment": true, "obimultiplex_error": true,
+	"obimultiplex_amplicon_rank": true, "obimultiplex_forward_matching": true, "obimultiplex_reverse_matching": true}
+
 func c12demuxOnce(c c12case, withHits bool) c12obs {
 	lib, err := obiformats.ReadNGSFilter(strings.NewReader(c.Sheet))
 	if err != nil {
 		return c12obs{Kind: "parse_error", Err: err.Error()}
 	}
-	if err := lib.Compile2(); err != nil {
+	var worker obiseq.SeqSliceWorker
+	if c.Via == "worker" {
+		// what the obimultiplex command does (IExtractBarcode): the command-line options are applied to the library, which is then compiled
+		emis := -1
+		if c.Emis > 0 {
+			emis = c.Emis
+		}
+		worker = lib.ExtractMultiBarcodeSliceWorker(
+			obingslibrary.OptionAllowedMismatches(emis),
+			obingslibrary.OptionAllowedIndel(c.Windels),
+			obingslibrary.OptionUnidentified(""),
+			obingslibrary.OptionDiscardErrors(false),
+			obingslibrary.OptionParallelWorkers(1),
+			obingslibrary.OptionBatchSize(10))
+	} else if err := lib.Compile2(); err != nil {
 		return c12obs{Kind: "parse_error", Err: "compile: " + err.Error()}
 	}
 	o := c12obs{Kind: "ok", Lib: c12lib(lib), Reads: make([][]c12res, 0, len(c.Reads))}
 	for i, r := range c.Reads {
 		s := obiseq.NewBioSequence(fmt.Sprintf("r%d", i), []byte(r), "")
+		if i < len(c.Annots) {
+			for k, v := range c.Annots[i] {
+				if f, ok := v.(float64); ok && f == float64(int(f)) {
+					s.SetAttribute(k, int(f))
+				} else {
+					s.SetAttribute(k, v)
+				}
+			}
+		}
 		if withHits {
 			hh := make([]c12hit, 0, 4)
 			for _, h := range lib.VerifPrimerMatches(s) {
@@ -192,7 +230,12 @@ func c12demuxOnce(c c12case, withHits bool) c12obs {
 			sort.SliceStable(hh, func(i, j int) bool { return hh[i].B < hh[j].B })
 			o.Hits = append(o.Hits, hh)
 		}
-		out, err := lib.ExtractMultiBarcode(s)
+		var out obiseq.BioSequenceSlice
+		if worker != nil {
+			out, err = worker(obiseq.BioSequenceSlice{s})
+		} else {
+			out, err = lib.ExtractMultiBarcode(s)
+		}
 		if err != nil {
 			return c12obs{Kind: "parse_error", Err: "extract: " + err.Error()}
 		}
@@ -217,6 +260,14 @@ func c12demuxOnce(c c12case, withHits bool) c12obs {
 			x.Exp, _ = c12str(a, "experiment")
 			x.Err, x.HasErr = c12str(a, "obimultiplex_error")
 			x.Rank, _ = c12str(a, "obimultiplex_amplicon_rank")
+			x.Fmt, _ = c12str(a, "obimultiplex_forward_matching")
+			x.Rmt, _ = c12str(a, "obimultiplex_reverse_matching")
+			x.Extra = map[string]string{}
+			for k, v := range a {
+				if !c12known[k] {
+					x.Extra[k] = fmt.Sprint(v)
+				}
+			}
 			rr = append(rr, x)
 		}
 		o.Reads = append(o.Reads, rr)
